@@ -70,7 +70,7 @@ def run_inproc(ctx, cases, scratch):
         for o in ops:
             p.append(s.add("%s\t%s" % (o[0], o[1] if len(o) > 1 else "")))
         pos.append(p)
-    out, err = s.run(scratch, timeout=300)
+    out, err = s.run(scratch, timeout=120)
     if out is None:
         ctx.obligation_broken("correspondence", "harness c02 run", err)
         return None
@@ -141,22 +141,39 @@ def cache_cases(rng, n_files):
                                    maxlen=rng.choice([24, 30, 60]))
         if rng.random() < 0.04:
             f, tab = rng.choice([(b"", {}), (b"\n", {}), (b"a", {}), (b"\n\n\n", {}), (b"ab\n", {})])
-        profile = "wild" if rng.random() < 0.25 else "safe"
-        ops = U.cache_ops(rng, f, tab, bs, rng.choice([5, 9, 14, 22, 30]), profile)
-        out.append((bs, f, tab, ops, profile))
+        kind = "plain" if rng.random() < 0.5 else rng.choice(["gz", "bz2", "lz4"])
+        if kind == "plain":
+            profile = "wild" if rng.random() < 0.25 else "safe"
+            ops = U.cache_ops(rng, f, tab, bs, rng.choice([5, 9, 14, 22, 30]), profile)
+        elif rng.random() < 0.3:
+            # drops disabled first (what SyslogProcessor does before the reverse pass of process_missing_year):
+            # then ANY call history must be answered as the spec says (theorem streamed_drop_disabled_refines)
+            profile = "stream_nodrop"
+            ops = [("CXD", 0)] + [o for o in U.cache_ops(rng, f, tab, bs, rng.choice([5, 9, 14, 22]), "safe")
+                                  if o[0] not in ("CDD", "CDS") and not (o[0] == "CRD" and "1" in o[1])]
+        elif rng.random() < 0.6 and f:
+            # the call pattern of the stage driver on a streamed reader: block-zero analysis, then the driver
+            profile = "stream_driver"
+            ops = ([("CSBn",)] * rng.choice([0, 1, 2, 3]) if rng.random() < 0.5 else []) + \
+                  [("CRD", rng.choice(["-", "1", "1", "10", "011"]))]
+        else:
+            # any call history on a streamed reader: tied to the model (a block that is gone gives Done), not judged
+            profile = "stream_wild"
+            ops = U.cache_ops(rng, f, tab, bs, rng.choice([5, 9, 14, 22]), "safe")
+        out.append((bs, f, tab, ops, profile, kind))
     return out
 
 
 def run_cache_mode(ctx, rng, quick, scratch, cdir):
     cases = cache_cases(rng, 110 if quick else 3000)
     wit = cache_witness_cases()
-    allc = [(bs, f, tab, ops) for _, bs, f, tab, ops in wit] + [c[:4] for c in cases]
+    allc = [(bs, f, tab, ops, "plain") for _, bs, f, tab, ops in wit] + [c[:4] + (c[5],) for c in cases]
     prof = ["wild"] * len(wit) + [c[4] for c in cases]
     ans, tabs, cops = U.run_cache_cases(allc, scratch)
     if ans is None:
         ctx.obligation_broken("correspondence", "harness c02 cache mode", tabs)
         return {}
-    ccases = [(bs, f, t, [(o_, a_) for o_, a_ in zip(o, a) if a_["kind"] != "ERR"]) for (bs, f, _, _), a, t, o in zip(allc, ans, tabs, cops)]
+    ccases = [(c_[0], c_[1], t, [(o_, a_) for o_, a_ in zip(o, a) if a_["kind"] != "ERR"], c_[4]) for c_, a, t, o in zip(allc, ans, tabs, cops)]
     bad = U.eval_shards(ctx, os.path.join(cdir, "cache"), U.coq_cache_cases, ccases, "model evaluation (cache model)")
     paths, dis = {}, []
     for sh, k, c in (bad or []):
@@ -167,20 +184,23 @@ def run_cache_mode(ctx, rng, quick, scratch, cdir):
             dis.append((sh[k // 1000], k % 1000, c))
     if dis:
         ci, j, code = dis[0]
-        bs, f, t, oa = ccases[ci]
+        bs, f, t, oa, kind_ = ccases[ci]
         ctx.obligation_broken(
             "correspondence", "LineReader/SyslineReader caches + summary() counters vs Model/Caches.v (c_step)",
-            json.dumps(dict(file_hex=f.hex(), blocksz=bs, ops=[list(o) for o, _ in oa], op_index=j,
+            json.dumps(dict(file_hex=f.hex(), blocksz=bs, container=kind_, ops=[list(o) for o, _ in oa], op_index=j,
                             code={1: "different answer", 2: "model failure", 3: "different counters", 4: "panic mismatch"}.get(code, code),
                             impl=repr(oa[j][1])[:600] if j < len(oa) else None, disagreements=len(dis))))
     # C3: answers vs the spec
-    n_ops = n_judged = panics_doc = fails = 0
+    n_ops = n_judged = panics_doc = fails = n_stream_wild = 0
     coq_l, coq_s, coq_g = [], [], []
     wit_ok = {}
-    for ci, ((bs, f, _, _), a, t, o) in enumerate(zip(allc, ans, tabs, cops)):
+    for ci, ((bs, f, _, _, kind), a, t, o) in enumerate(zip(allc, ans, tabs, cops)):
         n_ops += len(o)
+        if ci < len(prof) and prof[ci] == "stream_wild":
+            n_stream_wild += 1
+            continue
         wild_from = U.first_wild_sysline_in_block(o, a)
-        mm = U.cache_spec_mismatches(f, t, o, a, wild_from)
+        mm = U.cache_spec_mismatches(f, t, o, a, wild_from, kind == "plain")
         panics_doc += sum(1 for x in a if x["kind"] == "PANIC") - sum(1 for _, w in mm if w == "panic")
         if ci < len(wit):
             # the recorded witnesses: the model must predict them (B) and they must still deviate
@@ -191,7 +211,7 @@ def run_cache_mode(ctx, rng, quick, scratch, cdir):
         for (op, x) in zip(o, a):
             if x["kind"] in ("PANIC", "ERR"):
                 continue
-            if op[0] in ("CL", "CLB") and x["res"] is not None or op[0] == "CL":
+            if kind == "plain" and (op[0] in ("CL", "CLB") and x["res"] is not None or op[0] == "CL"):
                 r = x["res"]
                 coq_l.append((f, op[1], None if r is None else (r[0], r[1], r[2], r[6])))
             elif op[0] == "CS" and (wild_from is None or o.index(op) < wild_from):
@@ -202,14 +222,14 @@ def run_cache_mode(ctx, rng, quick, scratch, cdir):
             fails += 1
             if fails > 12:
                 continue
-            sops, sans = U.shrink_cache_case(bs, f, t, o, scratch, wild_from) if fails <= 4 else (o, a)
+            sops, sans = U.shrink_cache_case(bs, f, t, o, scratch, wild_from, kind=kind) if fails <= 4 else (o, a)
             if sans is None:
                 sops, sans = o, a
-            mm2 = U.cache_spec_mismatches(f, t, sops, sans, U.first_wild_sysline_in_block(sops, sans)) or mm
+            mm2 = U.cache_spec_mismatches(f, t, sops, sans, U.first_wild_sysline_in_block(sops, sans), kind == "plain") or mm
             j, what = mm2[0]
             exp = U.py_spec_find_line(f, sops[j][1]) if what == "find_line" else \
                 U.py_spec_find_sysline(f, t, sops[j][1]) if what == "find_sysline" else what
-            ctx.failure(dict(file_hex=f.hex(), blocksz=bs, cache_ops=[list(x) for x in sops], op_index=j,
+            ctx.failure(dict(file_hex=f.hex(), blocksz=bs, container=kind, cache_ops=[list(x) for x in sops], op_index=j,
                              original_ops=len(o), dated={k_.hex(): v for k_, v in t.items()}),
                         "Spec/LinesSpec.v %s: %r" % (what, exp), repr(sans[j])[:500], [])
     # the python transliteration of the spec functions is cross-checked against Coq on the same answers
@@ -230,7 +250,31 @@ def run_cache_mode(ctx, rng, quick, scratch, cdir):
                 cache_documented_panics_after_drop=panics_doc, cache_paths=dict(sorted(paths.items())),
                 cache_witnesses_reproduced={k_: bool(v) for k_, v in wit_ok.items()},
                 cache_sequences_with_drops=sum(1 for o in cops if any(x[0] in ("CDD", "CDS") or (x[0] == "CRD" and "1" in x[1]) for x in o)),
-                cache_sequences_wild=sum(1 for p_ in prof if p_ == "wild"))
+                cache_sequences_wild=sum(1 for p_ in prof if p_ == "wild"),
+                cache_containers={k_: sum(1 for c_ in allc if c_[4] == k_) for k_ in ("plain", "gz", "bz2", "lz4")},
+                cache_streamed_driver_sequences=sum(1 for p_ in prof if p_ == "stream_driver"),
+                cache_streamed_drops_disabled_sequences=sum(1 for p_ in prof if p_ == "stream_nodrop"),
+                cache_streamed_any_history_sequences_not_judged=n_stream_wild)
+
+
+def yearless_streamed(rng, n):
+    """logs whose timestamps lack a year (`Jan  2 03:04:05 host app: ...`) stored as .gz / .bz2, several
+    blocks long at the block sizes used: SyslogProcessor walks them BACKWARDS first (process_missing_year)
+    after disabling the block drops of the streamed reader.  Returns [(bytes, table, note, ext)]."""
+    out = []
+    for k in range(n):
+        lines, tab = [], {}
+        t = rng.randrange(0, 3000)
+        for m in range(rng.choice([6, 9, 14])):
+            t += rng.choice([1, 2, 61, 3600])
+            d, h, mi, se = 1 + (t // 86400) % 27, (t // 3600) % 24, (t // 60) % 60, t % 60
+            head = b"Jan %2d %02d:%02d:%02d host app: %s\n" % (d, h, mi, se, U.body(rng, rng.choice([3, 9, 20]), False))
+            lines.append(head); tab[head] = t
+            for _ in range(rng.choice([0, 0, 1, 2])):
+                lines.append(b" " + U.body(rng, rng.choice([2, 7, 30, 61]), False) + b"\n")
+        ext = rng.choice([".gz", ".bz2"])
+        out.append((b"".join(lines), tab, "yearless" + ext, ext))
+    return out
 
 
 def run(ctx):
@@ -323,6 +367,8 @@ def run(ctx):
         files.append((f, tab, note, [64, 128, None] if quick else [64, 65, 127, 128, 4096, 0xFFFFFF, None]))
     for f, tab, note in binary_files(rng, 26 if quick else 400):
         files.append((f, tab, note, rng.sample(BIN_BS, 2 if quick else 4) + [None]))
+    for f, tab, note, ext in yearless_streamed(rng, 3 if quick else 30):
+        files.append((f, tab, note, [64, 128] if quick else [64, 65, 128, 4096, None]))
     if not quick:
         for k in range(6):        # around the default block size and the largest one
             f, tab, lines = U.gen_file(rng, 0x10000 if k < 4 else 4096, nmsg=rng.choice([3, 4, 6]), wild=True)
@@ -333,17 +379,18 @@ def run(ctx):
     for fi, (f, tab, note, bss) in enumerate(files):
         if len(f) <= U.consts_from_repo()["FILE_TOO_SMALL_SZ"]:
             continue
-        path = os.path.join(scratch, "b%04d.log" % fi)
+        ext = note[len("yearless"):] if note.startswith("yearless.") else ""
+        path = os.path.join(scratch, "b%04d.log%s" % (fi, ext))
         with open(path, "wb") as fh:
-            fh.write(f)
+            fh.write(U.stored_form(ext[1:], f) if ext else f)
         exp = U.py_printed(f, tab)
         if len(f) <= 6000:
             coq_cross.append((f, tab, exp))
         sizes[len(f) // 1024] = sizes.get(len(f) // 1024, 0) + 1
         for bs in bss:
-            if bin_hangs >= 3:
-                break                      # three hangs of the binary are evidence enough (each costs its timeout)
-            rc, out, err = U.run_binary(path, bs)
+            if bin_hangs >= 2:
+                break                      # two hangs of the binary are evidence enough (each costs its timeout)
+            rc, out, err = U.run_binary(path, bs, timeout=(60 if bin_hangs == 0 else 15))
             bin_runs += 1
             bin_hangs += 1 if rc == 124 else 0
             ebs = U.BLOCKSZ_DEF if bs is None else bs
@@ -411,12 +458,12 @@ def replay(ctx, path):
         f = bytes.fromhex(c["file_hex"])
         tab = {bytes.fromhex(k): v for k, v in c.get("dated", {}).items()}
         if "cache_ops" in c:
-            ans, tabs, cops = U.run_cache_cases([(c["blocksz"], f, tab, [tuple(o) for o in c["cache_ops"]])], scratch)
+            ans, tabs, cops = U.run_cache_cases([(c["blocksz"], f, tab, [tuple(o) for o in c["cache_ops"]], c.get("container", "plain"))], scratch)
             print("replay cache mode blocksz=%d ops=%s" % (c["blocksz"], c["cache_ops"]))
             for o, a in zip(cops[0], ans[0]):
                 print("   %s -> %s" % (list(o), {k_: v for k_, v in a.items() if k_ != "cnt"}))
             print("  expected=%s" % fl["expected"])
-            mm = U.cache_spec_mismatches(f, tabs[0], cops[0], ans[0], U.first_wild_sysline_in_block(cops[0], ans[0]))
+            mm = U.cache_spec_mismatches(f, tabs[0], cops[0], ans[0], U.first_wild_sysline_in_block(cops[0], ans[0]), c.get("container", "plain") == "plain")
             if mm:
                 rc_all = 1
         elif "op" in c:
